@@ -343,7 +343,25 @@ def replay(chk, cases, what, U_of=lambda ci: (0, 1, 3)[ci % 3], cli_sample=0):
             for mode, args in (("list", ["list"]), ("run", [])):
                 cli_cases.append({"id": "%d-%s" % (ci, mode), "files": {"f.js": new_text}, "diff": gd, "args": args,
                                   "terminal": False})
-        cres = vlib.run_cli(cli_cases)
+        tdir = vlib.subdir("dt-cli-traces-" + what)
+        cres = vlib.run_cli(cli_cases, trace_dir=tdir)
+        # impl -> spec: the recorded walk and flags of every listed run against DiffTouch (TraceDiff.tla)
+        import runtrace
+        trs = {}
+        for ci in pick[:(120 if len(pick) <= 400 else 1200)]:
+            evs = runtrace.read_events(os.path.join(tdir, "cli-%d-list.ndjson" % ci))
+            for tf, tr in runtrace.diff_traces(evs).items():
+                trs["%d:%s" % (ci, tf)] = tr
+        for tid, (ok, diag, states, rc_) in runtrace.validate_many("TraceDiff", trs).items():
+            chk.traces += 1
+            chk.states += states
+            chk.transitions += states
+            if not ok:
+                if rc_ not in (10, 12, 13) and "TRACE" not in (diag or "") and "nvariant" not in (diag or ""):
+                    raise vlib.ToolError("TraceDiff failed on %s rc=%s\n%s" % (tid, rc_, diag))
+                ci = int(tid.split(":")[0])
+                chk.violation("TraceDiff rejects the recorded diff walk / touch flags: %s" % (diag or "")[:300],
+                              {"abstract": meta[ci][0], "trace": trs[tid]})
         for ci in pick:
             case, conc, diff, U, ids = meta[ci]
             rs = {m: cres["%d-%s" % (ci, m)] for m in ("list", "run")}
